@@ -344,8 +344,10 @@ package app
 //@   ensures error-exitcode: p.procState.Status == "Error" ==> p.procState.ExitCode != 0
 //@   ensures unlocked(p)
 //@   ensures nolocks: old(noLocks()) ==> noLocks()
+//@   ensures exit-code-recorded: p.procState.Status == "Completed" && waits() > old(waits()) ==> p.procState.ExitCode == exitCodeAt(waits()) && result == exitCodeAt(waits())
 //@   ensures drained-before-wait: forall i int :: old(waits()) <= i && i < waits() ==> waitAtDrains(i) == old(drains()) + (i - old(waits())) + 1
 //@   loop 1 invariant waits() - old(waits()) == drains() - old(drains()) && waits() >= old(waits())
+//@   loop 1 invariant waits() > old(waits()) ==> p.procState.ExitCode == exitCodeAt(waits())
 //@   loop 1 invariant forall i int :: old(waits()) <= i && i < waits() ==> waitAtDrains(i) == old(drains()) + (i - old(waits())) + 1
 //@   loop 1 invariant procWF(p) && unlocked(p) && bufWF(p.logBuffer) && (old(noLocks()) ==> noLocks())
 //@   loop 1 invariant starts() - old(starts()) == p.procState.Restarts - old(p.procState.Restarts)
